@@ -195,7 +195,13 @@ func generate(t *kernel.Tape) *scn {
 	}
 	s.ParentKind = t.Weighted("parent", 4, 2, 2, 1, 1)
 	s.ParentMS = int64(1 + t.Choose(5000, "parent-ms"))
-	s.CancelStep = 1 + t.Choose(40, "cancel-step")
+	switch t.Weighted("parent-deadline-class", 6, 1, 2) {
+	case 1:
+		s.ParentMS = 0 // the caller's deadline has already passed when Submit is called
+	case 2:
+		s.ParentMS = 30000 + int64(t.Choose(60000, "late-parent-ms")) // later than the default request timeout
+	}
+	s.CancelStep = t.Choose(41, "cancel-step") // 0: the caller's context is already cancelled when Submit is called
 	s.Reuse = t.Bool(2, "reuse")
 	s.Debug = t.Bool(8, "debug-mode")
 	s.AdvanceIn = []int{0, 6, 12, 3}[t.Choose(4, "advance-in")]
@@ -600,6 +606,14 @@ func (prop) Run(t *testing.T, tape *kernel.Tape, sc kernel.Scenario) *kernel.Res
 			k.AddInstant(time.Duration(s.TimeoutMS) * time.Millisecond)
 		} else if s.TimeoutMS < 0 {
 			k.AddInstant(client.DefaultTimeout)
+		}
+		if (s.ParentKind == 2 || s.ParentKind == 4) && s.CancelStep == 0 {
+			cancelAt = k.Now()
+			env.Fault("parent-cancelled-before-the-call")
+			cancelParent()
+		}
+		if (s.ParentKind == 1 || s.ParentKind == 3) && s.ParentMS == 0 {
+			env.Fault("parent-deadline-passed-before-the-call")
 		}
 		k.Go("caller", func() {
 			entryAt = k.Now()
